@@ -192,7 +192,7 @@ DefStage(shape, d) ==
 DefOut(lk, shape, d) ==
   LET conv == L(lk, "CimvalueRaw", {"ValueError"}, X)
       misc == L(lk, "MethodMisc", {"TypeError"}, X)
-      key  == L(lk, "RetvalParamtypeKey", {"KeyError"}, X)
+      key  == L(lk, "RetvalParamtypeKey", {"KeyError"}, P \cup X)
       meth == d.site \in MethodSites
       fuzz == Family("fuzz") \cup P IN
   CASE d.k = "t_exc" ->
@@ -234,7 +234,8 @@ DefOut(lk, shape, d) ==
     [] d.k = "r_child" -> IF d.cls = "insts" THEN {"CIMError"} ELSE X
     [] d.k = "r_mixed" ->
          CASE d.cls = "irv_err" ->
-                IF shape \in PullShapes \cup {"method"} THEN P ELSE X
+                IF shape \in PullShapes THEN P
+                ELSE IF shape = "method" THEN P \cup X ELSE X
            [] d.cls = "err_param" /\ shape = "export" -> X
            [] OTHER -> {"CIMError"}
     [] d.k = "v_num" ->
@@ -274,7 +275,8 @@ DefOut(lk, shape, d) ==
            [] d.site \in {"outparamarr", "refarr"} -> P
            [] OTHER -> X
     [] d.k = "v_shape" ->
-         IF d.cls = "ref_in_value" /\ d.site = "outparam" THEN P ELSE X
+         IF d.cls = "ref_in_value" /\ d.site = "outparam" THEN P \cup misc
+         ELSE X
     [] d.k = "v_emb" ->
          CASE d.cls \in {"ok_instance", "ok_class", "array", "both_attrs",
                          "false_attr"} -> P
